@@ -108,6 +108,8 @@ class Machine:
         return list(self.dfa.dfs())
 
     def idx(self, state):
+        if state is self.fail and id(state) not in self.index:
+            return len(self.index)      # the fail state was optimised away: any value outside the state range stands for it
         return self.index.get(id(state), -1)
 
     def is_accepting(self, state):
@@ -401,7 +403,7 @@ class Machine:
                     return Result(DONE if self.is_accepting(st) else OK, ptr, events, stuck=True)
             # ---- transition body
             self._cur_source = st
-            target_known = self.idx(t.target) >= 0
+            target_known = id(t.target) in self.index
             if target_known:
                 cfg.state = t.target
             early = any(a.may_return_early() for a in t.actions)
@@ -446,6 +448,13 @@ class Machine:
 
     # ---------------------------------------------------------------- API: end
     def end(self, cfg):
+        res = self._end(cfg)
+        if res.code == FAIL:
+            # once FAIL, always FAIL: end() that finds the input incomplete leaves the machine in the fail state
+            cfg.state = self.fail
+        return res
+
+    def _end(self, cfg):
         if not self.eof:
             raise Undefined("no end function")
         events = []
@@ -471,7 +480,7 @@ class Machine:
                 t = self.select(st, DFT.End)
                 if t is None or (t.error_handling and self.is_accepting(st)):
                     return Result(DONE if self.is_accepting(st) else FAIL, -1, events)
-            target_known = self.idx(t.target) >= 0
+            target_known = id(t.target) in self.index
             if target_known:
                 cfg.state = t.target
             try:
